@@ -41,7 +41,7 @@ RULE = (
     "thin} x range form {(3,),(1,),(2,2),()}), two save/load cycles (Path, str) + a second generation; bytes: {png,tiff} x {8,16} bit x "
     "{grey, single channel, colour} x shapes x encoders {cv2, hand-written (tiff: little/big endian)} x kwargs {none, dimensions+name}; "
     "optical: {uint8,uint16} x suffix {png,tif,(tiff)} x colour space {RGB,BGR} x shapes x payload {provenance, extremes} incl. "
-    "read->write->read; corrections: TypeCorrection x 7 data types; DriftCorrection active x roi form x padding x base form; "
+    "read->write->read; corrections: TypeCorrection x 7 data types; DriftCorrection active x roi form {none, slices, points, voxels} x padding {0, 0.2} x base form (3 probes, one roi-sensitive composite); "
     "CurvatureCorrection config variant x constructor kwargs x cache {cold,warm} x use_cache; IlluminationCorrection colour space x "
     "interpolation x rescale x probe dtype; ColorCorrection active x whitebalancing x colorbalancing x balancing x clip x base form x roi "
     "form; each applied to 2-3 probes. Non-trivial = every case (payloads are never constant); distinct = distinct case descriptor."
